@@ -59,6 +59,9 @@ func main() {
 		for _, n := range funcInventory(pkgs) {
 			fmt.Println(n)
 		}
+		for _, n := range closureInventory(pkgs) {
+			fmt.Println("closure\t" + n)
+		}
 		return
 	}
 	if err == nil {
@@ -72,6 +75,12 @@ func main() {
 				theWorld = w
 				for _, l := range nr.Log {
 					fmt.Println("normalise: " + l)
+				}
+				if d := os.Getenv("GSD_DUMP_NORM"); d != "" {
+					// debugging aid: write the normalised files
+					for name, b := range nr.Overlay {
+						os.WriteFile(d+"/"+strings.ReplaceAll(strings.TrimPrefix(name, *repo+"/"), "/", "__"), b, 0o644)
+					}
 				}
 			}
 		}
